@@ -39,23 +39,45 @@ func (s *sut) finish(v *view) []violation {
 		out = append(out, violation{"a released block was never handed back to the allocator",
 			fmt.Sprintf("%d blocks popped, %d handed back after quiescence plus one interval", v.pops, f)})
 	}
+	// Every acknowledged upload must be followed by a data synchronisation that STARTED after the
+	// acknowledgement and completed, and then by a successful state write taken after that
+	// completion which lists the upload's epoch (or shows that the epoch was rotated out).
 	s.mu.Lock()
-	var last *okState
-	if len(s.okStates) > 0 {
-		last = &s.okStates[len(s.okStates)-1]
-	}
-	s.mu.Unlock()
-	for _, e := range v.acked {
-		if last == nil || e >= last.bound {
+	for i, e := range v.acked {
+		at := v.ackedAt[i]
+		covered, why := false, "no data synchronisation started after the acknowledgement"
+		for si := at; si < len(s.log) && !covered; si++ {
+			if s.log[si].who != "p" || !strings.HasPrefix(s.log[si].text, "start ") {
+				continue
+			}
+			why = "the data synchronisation started after the acknowledgement never completed"
+			for ci := si + 1; ci < len(s.log) && !covered; ci++ {
+				if s.log[ci].who != "p" || s.log[ci].text != "completed" {
+					continue
+				}
+				why = "no state file listing the epoch was written after that synchronisation completed"
+				for _, st := range s.okStates {
+					if st.callSeq > ci && e < st.bound {
+						covered = true
+					}
+				}
+				break
+			}
+		}
+		if !covered && len(s.okStates) > 0 && e < s.okStates[len(s.okStates)-1].oldest {
+			covered = true // the block holding it was released; nothing left to persist
+		}
+		if !covered {
 			d := "no state was written"
-			if last != nil {
-				d = "last state written: " + last.snap
+			if n := len(s.okStates); n > 0 {
+				d = "last state written: " + s.okStates[n-1].snap
 			}
 			out = append(out, violation{"an acknowledged upload was not covered by a state write within one epoch interval",
-				fmt.Sprintf("epoch %d; %s", e, d)})
+				fmt.Sprintf("epoch %d acknowledged at log position %d: %s; %s", e, at, why, d)})
 			break
 		}
 	}
+	s.mu.Unlock()
 	return out
 }
 
